@@ -99,6 +99,8 @@ class BGPPeering(BGPFactory):
 
         # reference to the BGPProtocol instance in ESTAB state
         self.estab_protocol = None
+        # the connector of the current outgoing connection (attempt)
+        self.connector = None
 
     def buildProtocol(self, addr):
 
@@ -141,6 +143,9 @@ class BGPPeering(BGPFactory):
         :param reason: connection failed reason
         """
 
+        if connector is not self.connector:
+            # an attempt we have given up ourselves
+            return
         error_msg = "[%s]Client connection failed: %s" % (self.peer_addr, reason.getErrorMessage())
         self.handler.on_connection_failed(self.peer_addr, reason.getErrorMessage())
         LOG.info(error_msg)
@@ -179,7 +184,14 @@ class BGPPeering(BGPFactory):
         """BGP ManualStop event (event 2) Returns a DeferredList that
         will fire once the connection(s) have closed"""
 
+        self._abort_connecting()
         return self.fsm.manual_stop()
+
+    def _abort_connecting(self):
+        """Give up the pending connection attempt, if there is one."""
+        connector, self.connector = self.connector, None
+        if connector is not None and connector.state == 'connecting':
+            connector.stopConnecting()
 
     def connection_closed(self, pro, disconnect=False):
         """
@@ -240,12 +252,14 @@ class BGPPeering(BGPFactory):
 
         if self.fsm.state != bgp_cons.ST_ESTABLISHED:
 
+            self._abort_connecting()
             connector = reactor.connectTCP(
                 host=self.peer_addr,
                 port=bgp_cons.PORT,
                 factory=self,
                 timeout=30,
                 bindAddress=(self.my_addr, 0))
+            self.connector = connector
             if isinstance(self.md5, str) and self.md5:
                 md5sig = self.get_tcp_md5sig(self.md5, self.peer_addr, bgp_cons.PORT)
                 if md5sig:
